@@ -77,7 +77,7 @@ Proof. reflexivity. Qed.
 Definition constructor_statements_expected : list string :=
   [ "0:if isinstance(data, np.ndarray)";
     "1:mask = confidence == 0";
-    "1:stacked_mask = np.stack([mask] * data.shape[-1], axis=3)";
+    "1:stacked_mask = np.stack([mask] * data.shape[-1], axis=-1)";
     "1:data = ma.masked_array(data, mask=stacked_mask)";
     "0:super().__init__(fps, data, confidence)" ].
 Lemma constructor_tie : constructor_statements = constructor_statements_expected.
